@@ -41,7 +41,7 @@ check("C11", "exploration",
       "deterministic simulation with fault injection (keystream exhaustion) + reference model", "6.2")
 
 check("C03", "exploration",
-      "Every seeded run of the cipher, block-API and dispatching-hash scenarios is executed on all five run-time capability levels in one process (hook H1 makes the detection result a simulated input) and, with the same seed, in six separately built workers (portable/no_simd and the five no-std compile-time dispatch arms); transcripts must be identical after every step / per run. Seeded programs of vector operations (every operation group of the Machine trait bounds, all ten vector types) run on the five x86 Machine types at once and on the generic machine. Foreign hosts (s390x, i686, powerpc, arm, aarch64 builds interpreted by Miri) execute the same seeded operation list as the native twin, incl. vector programs that load and store through read_le/read_be/write_le/write_be. Six simulated CPU generations (the x86 backend with run-time detection as shipped, interpreted by Miri with exactly sse2 / +sse3 / +ssse3 / +sse4.1 / +avx / +avx2) run it too: the interpreter answers feature detection from that set and refuses any instruction of an extension the simulated CPU lacks. A cargo-feature build (threefish no_unroll) joins the cross-build comparison. A panic, refused instruction or wrong result on one host where another returns is a violation.",
+      "Every seeded run of the cipher, block-API and dispatching-hash scenarios is executed on all five run-time capability levels in one process (hook H1 makes the detection result a simulated input) and, with the same seed, in six separately built workers (portable/no_simd and the five no-std compile-time dispatch arms); transcripts must be identical after every step / per run. Seeded programs of vector operations (every operation group of the Machine trait bounds, all ten vector types) run on the five x86 Machine types at once and on the generic machine. Foreign hosts (s390x, i686, powerpc, arm, aarch64 builds interpreted by Miri) execute the same seeded operation list as the native twin, incl. vector programs that load and store through read_le/read_be/write_le/write_be. Six simulated CPU generations (the x86 backend with run-time detection as shipped, interpreted by Miri with exactly sse2 / +sse3 / +ssse3 / +sse4.1 / +avx / +avx2) run it too: the interpreter answers feature detection from that set and refuses any instruction of an extension the simulated CPU lacks. A cargo-feature build (every feature the crates of the working tree declare and the default build leaves off: threefish no_unroll, the deprecated simd features ...) and builds for the x86-64-v2 / v3 baselines (static SSSE3/SSE4.1 code with the SSE2 machine selected at run time) join the cross-build comparison. A panic, refused instruction or wrong result on one host where another returns is a violation.",
       "Trusted: hook H1 takes exactly the arm a real CPU of that level would take (its match arms mirror the detection chains); the real CPU must support the simulated level (AVX2 here). For vector operations only cross-backend identity is judged. The x86 backend reaches the interpreter through an overlay copy of ppv-lite86 (its four cfg(miri) conditions switched) that the check makes from /repo's working tree. No open known finding (the JH big-endian defect is fixed: a3fb3e4).",
       "deterministic simulation: simulated CPU-capability hosts (run-time via hook, build-time via features) + cross-host transcript equality", "6.5")
 check("C08", "exploration",
@@ -49,7 +49,7 @@ check("C08", "exploration",
       "Trusted: the byte-list model; Digest::digest of the same type as oracle. Runs are capped at 64 KiB.",
       "deterministic simulation: seeded operation histories + byte-list reference model", "6.6")
 check("C14", "exploration",
-      "Seeded block-API histories with counters aimed at every carry lane (low word within 4 of 2^32) and at the 2^64 wrap, double rounds 0..=10, on every simulated host (five in-process levels, portable and five no-std builds): refill4 versus four refills from a cloned state (bytes and resulting state), counter/stream-id read back after every step, emitted block compared with the spec block of the modelled counter. The cfg(target_endian = big) counter helpers - and whatever cfg(target_pointer_width) / cfg(target_arch) code a change adds - run on foreign hosts (s390x, powerpc, arm, aarch64, i686 builds under Miri) and on six simulated CPU generations (x86 backend under Miri), whose transcripts are compared with the native twin; double-round counts of 2^16, 2^24+1, 2^31 (thorough 2^32-1) are compared on five threads.",
+      "Seeded block-API histories with counters aimed at every carry lane (low word within 4 of 2^32) and at the 2^64 wrap, double rounds 0..=10, on every simulated host (five in-process levels, portable and five no-std builds): refill4 versus four refills from a cloned state (bytes and resulting state), counter/stream-id read back after every step, emitted block compared with the spec block of the modelled counter. The cfg(target_endian = big) counter helpers - and whatever cfg(target_pointer_width) / cfg(target_arch) code a change adds - run on foreign hosts (s390x, powerpc, arm, aarch64, i686 builds under Miri) and on six simulated CPU generations (x86 backend under Miri), whose transcripts are compared with the native twin; double-round counts of 2^16, 2^24+1, 2^31 (thorough 2^32-1) are compared on five threads; c2-chacha built without its cipher front end (cargo feature rustcrypto_api off, with and without std, release and dev) runs the comparison in a program of its own.",
       "Trusted: the counter model; the spec block function only to recognise position errors (a block that equals the spec block of a nearby counter). Other spec deviations are C01 territory.",
       "deterministic simulation: seeded operation histories on simulated hosts + state model + real-code differential", "6.3")
 check("C15", "exploration",
@@ -58,7 +58,7 @@ check("C15", "exploration",
       "deterministic simulation: seeded operation histories + state model", "6.4")
 
 check("C16", "fault_enumeration",
-      "Every byte-slice argument of every public operation is placed by a guard-page arena the simulator owns; the injected fault is the page fault (or a changed canary) that an access outside the slice causes. Both tiers enumerate completely the 3 placements x 64 start alignments / length residues for every (operation kind, buffered-prefix class, length class, simulated host level) combination; data contents are sampled. The result must equal the same call on an ordinary buffer and the process must survive. A second pass runs the operations under Miri with every slice an exact-size allocation (byte-granular bounds and alignment checking), on the portable backend and on the x86 backend (AVX2 machine), and a third under valgrind's memcheck on exact-size heap blocks (native SIMD code), which see what page granularity cannot. Single calls of 2-5 GiB end at an unmapped page. Builds: std, overflow-checked, portable, target-cpu=native, cargo features (threefish no_unroll), Groestl's non-AES fallbacks (hook H3).",
+      "Every byte-slice argument of every public operation is placed by a guard-page arena the simulator owns; the injected fault is the page fault (or a changed canary) that an access outside the slice causes. Both tiers enumerate completely the 3 placements x 64 start alignments / length residues for every (operation kind, buffered-prefix class, length class, simulated host level) combination; data contents are sampled. The result must equal the same call on an ordinary buffer and the process must survive. A second pass runs the operations under Miri with every slice an exact-size allocation (byte-granular bounds and alignment checking), on the portable backend and on the x86 backend (AVX2 machine), and a third under valgrind's memcheck on exact-size heap blocks (native SIMD code), which see what page granularity cannot. Single calls of 64 KiB - 16 MiB after odd prefixes and of 2-5 GiB end at an unmapped page. Builds: std, overflow-checked, portable, target-cpu=native, cargo features (threefish no_unroll), Groestl's non-AES fallbacks (hook H3).",
       "Trusted: mmap/mprotect semantics of Linux; an out-of-slice READ that stays inside the mapped page is not observable (both edge placements are enumerated to minimise this); input slices are read-only pages. Vector code paths per host level through hook H1; explicit Machine types for vector byte I/O.",
       "deterministic simulation with fault injection: simulator-owned buffer placement against unmapped pages, complete enumeration of placements/alignments", "6.7")
 check("C17", "exploration",
